@@ -78,6 +78,12 @@ CoversExactly(cover, claim) ==
   /\ Len(cover) = Cardinality(claim)
 
 (* ----------------------------- values ---------------------------------- *)
+AbsI(a) == IF a < 0 THEN -a ELSE a
+\* an observed value (snapped to the Gaussian integers by the driver, relative tolerance 1e-6) is the exact value z:
+\* equal for |z| < 10^6, within a relative 10^-6 above (double precision of the projector / eigh based schemes is ~1e-8)
+Close(x, z) == LET t == (AbsI(z[1]) + AbsI(z[2])) \div 1000000
+               IN  AbsI(x[1] - z[1]) <= t /\ AbsI(x[2] - z[2]) <= t
+
 \* value of a flat network, or of the norm network <psi|psi> of a ket network with output labels `out`
 \* (the layered bra/ket network denotes the sum of the squared moduli of the ket's amplitudes)
 ExactValue(net, layered, out) ==
